@@ -368,3 +368,31 @@ func init() {
 		return st.res()
 	})
 }
+
+func init() {
+	// CrossSweep: a FAMILY of related accepted encodings of one structure (computed by the specification: one is a prefix / an extension /
+	// a one-field variant of the other).  Each is parsed; every method is touched; then every method that takes another value of the type
+	// is called with every other member of the family as the argument, in both directions.
+	register("CrossSweep", func(s *Session, a Args) Res {
+		rd, ok := readers[a.Str("fn")]
+		if !ok {
+			return Res{"unknown_fn": true}
+		}
+		st := &sweepStats{}
+		var mine []reflect.Value
+		var mineWhat []string
+		for k, it := range a.List("items") {
+			in := toBytes(it)
+			what := fmt.Sprintf("family member %d", k+1)
+			parseAndTouch(st, rd, in, a, what)
+			var o2 ReadOut
+			if msg := guarded(func() { o2 = rd(append([]byte{}, in...), a) }); msg == "" && o2.OK && o2.Val != nil {
+				mine = append(mine, reflect.ValueOf(o2.Val))
+				mineWhat = append(mineWhat, what)
+			}
+		}
+		st.pool, st.poolWhat = mine, mineWhat
+		st.cross()
+		return st.res()
+	})
+}
